@@ -849,6 +849,7 @@ theorem dead_unfold (code : VCode) (r : Res) (k : Nat) (hk : k < code.length) :
         if readsReg mn o r then false
         else if writesReg mn o r then true
         else dead code r (k + 1)
+      | some .rts => exitDead r
       | _ => false := by
   unfold dead
   have e : code.length + 1 - k = (code.length + 1 - (k + 1)) + 1 := by omega
@@ -881,7 +882,7 @@ theorem dead_ins_next (code : VCode) (r : Res) (k : Nat) (mn : Mn) (o : Opd) (h 
 
 /-- nothing is dead at a line the scan does not pass -/
 theorem dead_barrier (code : VCode) (r : Res) (k : Nat)
-    (h : match code[k]? with | some .dummy | some (.lab _) | some (.ins _ _) => False | _ => True) :
+    (h : match code[k]? with | some .dummy | some (.lab _) | some (.ins _ _) | some .rts => False | _ => True) :
     dead code r k = false := by
   by_cases hk : k < code.length
   · rw [dead_unfold code r k hk]
@@ -893,6 +894,11 @@ theorem dead_barrier (code : VCode) (r : Res) (k : Nat)
     cases hf : code.length + 1 - k with
     | zero => simp [deadFrom]
     | succ f => simp [deadFrom, this]
+
+/-- at the return exactly the flags are dead -/
+theorem dead_rts (code : VCode) (r : Res) (k : Nat) (h : code[k]? = some .rts) : dead code r k = exitDead r := by
+  have hk : k < code.length := (List.getElem?_eq_some_iff.mp h).1
+  rw [dead_unfold code r k hk, h]
 
 theorem nz_unchanged {s : Cpu} {K : Facts} {r : Res} (v : Byte) (hk : K.nz = some r) (hnz : nzHolds s K.nz)
     (hv : regVal s r = v) : v.msb = s.f.n ∧ (v == 0) = s.f.z := by
